@@ -208,6 +208,11 @@ func ParseField(v reflect.Value, bytes []byte, params fieldParameters) error {
 	// the element ends where its length says, not where the input ends
 	bytes = bytes[:int64(talOff)+tal.len]
 
+	// A tagged value must carry the context-specific tag its parameters name.
+	if params.tagNumber != nil && (tal.class != ClassContextSpecific || tal.tagNumber != *params.tagNumber) {
+		return fmt.Errorf("unexpected tag [class %d, number %d], want context tag %d", tal.class, tal.tagNumber, *params.tagNumber)
+	}
+
 	// An explicit tag wraps the complete encoding of the underlying type: decode what is inside it.
 	if params.tagNumber != nil && params.explicitTag {
 		innerParams := params
